@@ -146,7 +146,7 @@ def corr_enc(ctx, S, prop_oracle):
         if v:
             ctx.violate(v[0], v[1], {'stream': 'enc', 'case': r['case'], 'type': type_desc(pool, r['tid']),
                                      'implementation': r['hraw'], 'model': r['mraw']})
-        elif not same(r['h'], r['m'], ('size', 'st', 'bytes', 'handles')):
+        elif not same(r['h'], r['m'], ('size', 'st', 'bytes')):
             broken.append(r)
     return broken
 
